@@ -27,6 +27,7 @@ from tools.common import q, unq, driver
 from tools.translate import ctables as ct
 
 TRUSTED = [
+    'tools/cyexec.py (Cython-subset source executor, validated by its --selftest and by bit-identical agreement with the binaries on the unchanged tree): the source reading of the hand-written .pyx/.pxi files',
     'Lean 4.33 kernel; axioms of every theorem within {propext, Classical.choice, Quot.sound} (audited each run)',
     'Mathlib v4.33 (ordered fields, finite sums) for the lifting lemmas only; the table checks use no Mathlib',
     'tools/translate/ctables.py (C subset parser + Lean emitter): validated on every run by V - compiled C vs '
